@@ -13,11 +13,13 @@ import (
 	"net"
 	"net/http"
 	"os"
+	"reflect"
 	"strings"
 	"sync"
 	"testing"
 	"time"
 
+	"k8s.io/apimachinery/pkg/types"
 	"k8s.io/apiserver/pkg/authentication/user"
 
 	proxyv1alpha1 "github.com/kubewharf/kubegateway/pkg/apis/proxy/v1alpha1"
@@ -173,12 +175,87 @@ type hist struct {
 	bad     bool
 	// clusterNames: the clusters of this history (for the attribution of probes)
 	clusterNames []string
+	// slash[s]: the server URL of stub s is written with a trailing slash in the objects ("http://127.0.0.1:port/")
+	slash map[int]bool
+	// lastObj: the latest object of each cluster as the API holds it (for metadata.generation)
+	lastObj map[string]*proxyv1alpha1.UpstreamCluster
+}
+
+// epURL is the spelling of stub s's URL in the cluster objects of this history.
+func (h *hist) epURL(s int) string {
+	if h.slash[s] {
+		return h.stubs[s].URL + "/"
+	}
+	return h.stubs[s].URL
+}
+
+// subsetFor: the policy that routes to stub s names it as the server list spells it; for a server written with a
+// trailing slash the subset also names the spelling without it (an entry that is not a server is ignored by the picker).
+func (h *hist) subsetFor(s int) []string {
+	if h.slash[s] {
+		return []string{h.epURL(s), h.stubs[s].URL}
+	}
+	return []string{h.epURL(s)}
+}
+
+// stamp gives the object the metadata.generation the API would: 1 at creation, +1 whenever spec or annotations differ
+// from the stored object, unchanged otherwise.
+func (h *hist) stamp(o *proxyv1alpha1.UpstreamCluster) {
+	last := h.lastObj[o.Name]
+	switch {
+	case last == nil:
+		o.Generation = 1
+		o.UID = types.UID(fmt.Sprintf("uid-%d-%s-%d", h.id, o.Name, bed.Now()))
+	case !reflect.DeepEqual(last.Spec, o.Spec) || !reflect.DeepEqual(last.Annotations, o.Annotations):
+		o.Generation = last.Generation + 1
+		o.UID = last.UID
+	default:
+		o.Generation = last.Generation
+		o.UID = last.UID
+	}
+	h.lastObj[o.Name] = o.DeepCopy()
+}
+
+// applyObj stores the object (with its generation) as the lister's latest version and delivers the event.
+func (h *hist) applyObj(o *proxyv1alpha1.UpstreamCluster) bed.SyncResult {
+	h.stamp(o)
+	return h.gw.Apply(o)
+}
+
+func (h *hist) deleteCluster(name string) bed.SyncResult {
+	delete(h.lastObj, name)
+	return h.gw.Delete(name)
 }
 
 func (h *hist) gwToken(cluster string) string { return fmt.Sprintf("gwt-c15-%d-%s", h.id, cluster) }
 
 // probesFrom returns the instants of the /healthz probes stub s received from this history's gateway for the cluster.
 func (h *hist) probesFrom(s int, cluster string) []int64 { return h.stubs[s].ProbesFrom(h.gwToken(cluster)) }
+
+// waitAllReady waits until every enabled server of the object reports ready. The endpoint is looked up under the spelling
+// of the object and, failing that, without a trailing slash: how the gateway names an endpoint internally is not the
+// harness's business (the verdicts are taken at the client and at the stubs).
+func (h *hist) waitAllReady(o *proxyv1alpha1.UpstreamCluster, d time.Duration) bool {
+	return vkit.WaitFor(d, func() bool {
+		ci, ok := h.gw.Cluster(o.Name)
+		if !ok {
+			return false
+		}
+		for _, sv := range o.Spec.Servers {
+			if sv.Disabled != nil && *sv.Disabled {
+				continue
+			}
+			ep, ok := ci.Endpoints.Load(sv.Endpoint)
+			if !ok {
+				ep, ok = ci.Endpoints.Load(strings.TrimSuffix(sv.Endpoint, "/"))
+			}
+			if !ok || !ep.IsReady() {
+				return false
+			}
+		}
+		return true
+	})
+}
 
 func (h *hist) fail(reason string) {
 	h.bad = true
@@ -204,14 +281,14 @@ func (h *hist) clusterObject(name, prefix string, stubs []int) *proxyv1alpha1.Up
 	var servers []string
 	var ps []proxyv1alpha1.DispatchPolicy
 	for _, s := range stubs {
-		servers = append(servers, h.stubs[s].URL)
+		servers = append(servers, h.epURL(s))
 	}
 	return h.clusterObjectWithPolicies(name, prefix, stubs, servers, ps)
 }
 
 func (h *hist) clusterObjectWithPolicies(name, prefix string, policyStubs []int, servers []string, ps []proxyv1alpha1.DispatchPolicy) *proxyv1alpha1.UpstreamCluster {
 	for _, s := range policyStubs {
-		ps = append(ps, proxyv1alpha1.DispatchPolicy{Strategy: proxyv1alpha1.RoundRobin, UpstreamSubset: []string{h.stubs[s].URL}, Rules: userRule(fmt.Sprintf("%s-e%d", prefix, s))})
+		ps = append(ps, proxyv1alpha1.DispatchPolicy{Strategy: proxyv1alpha1.RoundRobin, UpstreamSubset: h.subsetFor(s), Rules: userRule(fmt.Sprintf("%s-e%d", prefix, s))})
 	}
 	ps = append(ps, proxyv1alpha1.DispatchPolicy{Strategy: proxyv1alpha1.RoundRobin, Rules: userRule(prefix + "-any")})
 	// The gateway's credential for the cluster is unique in the whole run and constant across the history's updates:
@@ -342,7 +419,7 @@ func (h *hist) close() {
 }
 
 func newHist(r *vkit.R, id, nA, nB int) *hist {
-	h := &hist{r: r, id: id, tokens: map[string]string{}, slog: &stubLog{m: map[string]*upRec{}, release: make(chan struct{})}}
+	h := &hist{r: r, id: id, tokens: map[string]string{}, slash: map[int]bool{}, lastObj: map[string]*proxyv1alpha1.UpstreamCluster{}, slog: &stubLog{m: map[string]*upRec{}, release: make(chan struct{})}}
 	for i := 0; i < nA+nB; i++ {
 		s := bed.NewStub(fmt.Sprintf("h%d-s%d", id, i))
 		s.SetResponder(h.slog.responder(i))
@@ -395,6 +472,16 @@ func runHistory(r *vkit.R, id int, g *vkit.Rand, longWait bool, hungProbe bool) 
 	}
 	nameA, nameB := fmt.Sprintf("a%d.c15.test", id), fmt.Sprintf("b%d.c15.test", id)
 	h.clusterNames = []string{nameA, nameB}
+	// In a third of the histories the endpoints of cluster A that are NOT removed are written with a trailing slash
+	// (validation accepts "http://host:port/"): they are "the other endpoints of the same cluster" and must be unaffected.
+	if g.Chance(0.35) {
+		for i, s := range h.aStubs[1:] {
+			if i == 0 || g.Bool() {
+				h.slash[s] = true
+			}
+		}
+		r.Count("histories_with_trailing_slash_server_urls", 1)
+	}
 	e1 := h.aStubs[0]
 	objA := h.clusterObject(nameA, "a", h.aStubs)
 	// pre-history of the endpoint that will be removed: it was disabled at some point (created disabled, or disabled
@@ -440,11 +527,11 @@ func runHistory(r *vkit.R, id int, g *vkit.Rand, longWait bool, hungProbe bool) 
 		return o
 	}
 	applyA := func(o *proxyv1alpha1.UpstreamCluster) bool {
-		if sr := h.gw.Apply(o); sr.Err != nil || sr.Panic != nil || sr.Requeue {
+		if sr := h.applyObj(o); sr.Err != nil || sr.Panic != nil || sr.Requeue {
 			h.fail(fmt.Sprintf("controller did not apply a generated cluster: %+v", sr))
 			return false
 		}
-		if !h.gw.WaitAllReady(o, watchdog) {
+		if !h.waitAllReady(o, watchdog) {
 			h.fail("stub endpoints did not become ready within the watchdog")
 			return false
 		}
@@ -475,11 +562,11 @@ func runHistory(r *vkit.R, id int, g *vkit.Rand, longWait bool, hungProbe bool) 
 	}
 	objB := h.clusterObjectWithPolicies(nameB, "b", bPol, bServers, nil)
 	for _, o := range []*proxyv1alpha1.UpstreamCluster{objA, objB} {
-		if sr := h.gw.Apply(o); sr.Err != nil || sr.Panic != nil || sr.Requeue {
+		if sr := h.applyObj(o); sr.Err != nil || sr.Panic != nil || sr.Requeue {
 			h.fail(fmt.Sprintf("controller did not apply a generated cluster: %+v", sr))
 			return
 		}
-		if !h.gw.WaitAllReady(o, watchdog) {
+		if !h.waitAllReady(o, watchdog) {
 			h.fail("stub endpoints did not become ready within the watchdog")
 			return
 		}
@@ -487,7 +574,9 @@ func runHistory(r *vkit.R, id int, g *vkit.Rand, longWait bool, hungProbe bool) 
 	ciA, _ := h.gw.Cluster(nameA)
 	retained := map[int]*clusters.EndpointInfo{}
 	for _, s := range h.aStubs {
-		if ep, ok := ciA.Endpoints.Load(h.stubs[s].URL); ok {
+		if ep, ok := ciA.Endpoints.Load(h.epURL(s)); ok {
+			retained[s] = ep
+		} else if ep, ok := ciA.Endpoints.Load(h.stubs[s].URL); ok {
 			retained[s] = ep
 		}
 	}
@@ -598,7 +687,7 @@ func runHistory(r *vkit.R, id int, g *vkit.Rand, longWait bool, hungProbe bool) 
 	if kind == "endpoint-remove" && !hungProbe && g.Chance(0.4) {
 		retire = "/disabled-before-removal"
 		if !func() bool {
-			if sr := h.gw.Apply(withE1Disabled()); sr.Err != nil || sr.Panic != nil || sr.Requeue {
+			if sr := h.applyObj(withE1Disabled()); sr.Err != nil || sr.Panic != nil || sr.Requeue {
 				h.fail(fmt.Sprintf("controller did not apply the disabling update: %+v", sr))
 				return false
 			}
@@ -631,25 +720,40 @@ func runHistory(r *vkit.R, id int, g *vkit.Rand, longWait bool, hungProbe bool) 
 	// In a third of the endpoint removals the removing update ALSO adds a server for which no client can be built: the sync
 	// fails half-way and asks for a requeue (re-delivered up to 3 times, as the queue would). The object is the latest
 	// one, E1 is not in its list: all clauses hold for E1 from the moment the first removing sync returned.
+	// `failing` is the variant suffix of the removing update
 	failing := ""
 	if kind == "endpoint-remove" && !hungProbe && g.Chance(0.35) {
 		failing = "/with-failing-add"
 	}
+	// Another shape of the removing event: the object was DELETED AND RE-CREATED under the same name with a different
+	// server list (E1 is not in it); the lister already holds the new object when the event is processed, so the controller
+	// sees a single update whose metadata.generation is back at 1 (as it was when the old object was applied, if its spec
+	// had not been changed since creation).
+	recreated := false
+	if kind == "endpoint-remove" && !hungProbe && failing == "" && pre == "none" && retire == "" && g.Chance(0.6) {
+		failing = "/deleted-and-recreated"
+		recreated = true
+		if last := h.lastObj[nameA]; last != nil && last.Generation == 1 {
+			r.Count("endpoint_removals_by_recreation_with_equal_generation", 1)
+		}
+		delete(h.lastObj, nameA)
+	}
+	_ = recreated
 
 	// ---- the removal ----
 	t0 := bed.Now()
 	var sr bed.SyncResult
 	if kind == "cluster-delete" {
-		sr = h.gw.Delete(nameA)
+		sr = h.deleteCluster(nameA)
 	} else {
 		servers := urls(h, h.aStubs[1:])
-		if failing != "" {
+		if failing == "/with-failing-add" {
 			servers = append(servers, []string{"http://[::1", "http://a b", "http://bad host:6443"}[g.Intn(3)])
 		}
-		sr = h.gw.Apply(h.clusterObjectWithPolicies(nameA, "a", h.aStubs, servers, nil))
+		sr = h.applyObj(h.clusterObjectWithPolicies(nameA, "a", h.aStubs, servers, nil))
 	}
 	tRemoved := bed.Now()
-	if failing != "" {
+	if failing == "/with-failing-add" {
 		requeues := 0
 		for sr.Panic == nil && sr.Requeue && requeues < 3 {
 			requeues++
@@ -922,7 +1026,7 @@ var (
 func urls(h *hist, stubs []int) []string {
 	var out []string
 	for _, s := range stubs {
-		out = append(out, h.stubs[s].URL)
+		out = append(out, h.epURL(s))
 	}
 	return out
 }
@@ -944,7 +1048,7 @@ func TestCheck(t *testing.T) {
 			"them, removed endpoint -> never receives them; (b) every request that was being proxied to the removed target ends on the client side AND at the stub within 5 s while all control " +
 			"streams keep delivering data; control streams (other cluster, other endpoints of A, B's stream to the same upstream) stay open and carry data; (c) no /healthz probe reaches the " +
 			"removed target later than 500 ms after the sync although TriggerHealthCheck is called on the retained EndpointInfo (some histories wait 6 s: ticker and probe timeout; some remove " +
-			"the target while its probe hangs; in 45% of the histories - and in all long-wait ones - the endpoint had been disabled (at creation or later) and enabled again before, so its checker was restarted by a spec update; in 40% of the endpoint removals the endpoint is first marked disabled by one update while the streams run and removed by the next); (d) the other cluster and the remaining endpoints answer new requests. A third of the endpoint removals also add a server for which no client can be built (sync fails half-way, re-delivered 3 times); half of the cluster deletions list alias names (repeated, other case, own name) and every name, in variants, must answer 503 afterwards. Extra histories with the production bearer-token wiring (token-review / access-review webhooks over the controller, cache TTL > 0): reviews before, removal of the endpoint that served the first review (or cluster delete), then requests with new tokens: no TokenReview / SubjectAccessReview / proxied request may reach the removed target. Distinct = hash(removal kind, timing, topology, stream shapes).")
+			"the target while its probe hangs; in 45% of the histories - and in all long-wait ones - the endpoint had been disabled (at creation or later) and enabled again before, so its checker was restarted by a spec update; in 40% of the endpoint removals the endpoint is first marked disabled by one update while the streams run and removed by the next); (d) the other cluster and the remaining endpoints answer new requests. A third of the endpoint removals also add a server for which no client can be built (sync fails half-way, re-delivered 3 times); half of the cluster deletions list alias names (repeated, other case, own name) and every name, in variants, must answer 503 afterwards. Every object carries the metadata.generation the API would give it (1 at creation, +1 per spec/annotation change); some endpoint removals are delivered as deleted-and-re-created-with-another-server-list (one update, generation back at 1). In a third of the histories the remaining endpoints of cluster A are spelled with a trailing slash. Extra histories with the production bearer-token wiring (token-review / access-review webhooks over the controller, cache TTL > 0): reviews before, removal of the endpoint that served the first review (or cluster delete), then requests with new tokens: no TokenReview / SubjectAccessReview / proxied request may reach the removed target. Distinct = hash(removal kind, timing, topology, stream shapes).")
 		r.Assume("the 5 s promptness bound is judged only while the control streams of the same history deliver data (otherwise inconclusive)")
 		r.Assume("a probe logged by a stub within 500 ms after the removing sync returned is taken as already in flight when the sync returned")
 		r.Assume("not placed: a removal while the TCP dial to the upstream is still pending")
@@ -988,6 +1092,8 @@ func TestCheck(t *testing.T) {
 		r.Require(r.Counter("new_requests_to_deleted_cluster") >= int64(tierN(r, 100, 1200)) && r.Counter("new_requests_to_remaining_endpoints") >= int64(tierN(r, 50, 600)), "too few new requests after removal")
 		r.Require(r.Counter("removed_targets_probe_checked") >= int64(tierN(r, 100, 1200)), "too few removed targets checked for probes")
 		r.Require(r.Counter("long_waits_after_removal") >= int64(long), "too few long waits after removal")
+		r.Require(r.Counter("endpoint_removals_by_recreation_with_equal_generation") >= int64(tierN(r, 6, 80)), "too few endpoint removals by delete-and-re-create with the generation back at the applied one")
+		r.Require(r.Counter("histories_with_trailing_slash_server_urls") >= int64(tierN(r, 25, 300)), "too few histories with trailing-slash server URLs")
 		r.Require(r.Counter("endpoint_removals_with_failing_add") >= int64(tierN(r, 10, 120)), "too few endpoint removals whose update also adds an unbuildable server")
 		r.Require(r.Counter("cluster_deletions_with_alias_names") >= int64(tierN(r, 15, 150)) && r.Counter("alias_requests_forwarded_before_the_deletion") >= int64(tierN(r, 20, 200)), "too few cluster deletions with alias names")
 		r.Require(r.Counter("streams_still_proxied_to_the_disabled_endpoint_at_removal") >= int64(tierN(r, 20, 250)), "too few streams were still being proxied to an endpoint that was disabled and then removed")
